@@ -108,6 +108,102 @@ theorem decide_clears (P : Params) (s : St) (t : Nat) : ∀ sp ∈ (decideT P s 
       · split at hsp <;> exact hsp
     simpa using (List.mem_filter.mp key).2
 
+theorem decide_buf (P : Params) (s : St) (t : Nat) :
+    (decideT P s t).buf = s.buf.filter (fun sp => sp.trace != t) := by
+  unfold decideT
+  simp only
+  split
+  · next he =>
+    symm
+    rw [List.filter_eq_self]
+    intro sp hsp
+    have : sp ∉ s.buf.filter (fun sp => sp.trace == t) := by
+      rw [List.isEmpty_iff] at he; rw [he]; simp
+    simp only [List.mem_filter, not_and] at this
+    simpa using this hsp
+  · split
+    · rfl
+    · split <;> rfl
+
+theorem decide_toSend_len (P : Params) (s : St) (t : Nat) :
+    (decideT P s t).toSend.length ≤ s.toSend.length + 1 := by
+  unfold decideT
+  simp only
+  split
+  · omega
+  · split
+    · simp
+    · split <;> simp
+
+def decideAll (P : Params) (s : St) (ts : List Nat) : St := (ts.map Op.decide).foldl (step P) s
+
+theorem decideAll_buf (P : Params) (ts : List Nat) : ∀ s, (decideAll P s ts).buf = s.buf.filter (fun sp => !ts.contains sp.trace) := by
+  induction ts with
+  | nil => intro s; simp only [decideAll, List.map_nil, List.foldl_nil]; exact (List.filter_eq_self.mpr (by simp)).symm
+  | cons t ts ih =>
+    intro s
+    have : decideAll P s (t :: ts) = decideAll P (decideT P s t) ts := by simp [decideAll, step]
+    rw [this, ih, decide_buf, List.filter_filter]
+    congr 1
+    funext sp
+    by_cases h : sp.trace = t <;> simp [h, Bool.and_comm]
+
+theorem decideAll_toSend_len (P : Params) (ts : List Nat) : ∀ s, (decideAll P s ts).toSend.length ≤ s.toSend.length + ts.length := by
+  induction ts with
+  | nil => intro s; simp [decideAll]
+  | cons t ts ih =>
+    intro s
+    have : decideAll P s (t :: ts) = decideAll P (decideT P s t) ts := by simp [decideAll, step]
+    rw [this]
+    have := ih (decideT P s t)
+    have := decide_toSend_len P s t
+    simp only [List.length_cons]
+    omega
+
+theorem drains (P : Params) (n : Nat) : ∀ s, s.toSend.length ≤ n →
+    ((List.replicate n Op.drain).foldl (step P) s).toSend = [] ∧
+    ((List.replicate n Op.drain).foldl (step P) s).buf = s.buf := by
+  induction n with
+  | zero => intro s h; simp at h; simp [h]
+  | succ n ih =>
+    intro s h
+    rw [List.replicate_succ, List.foldl_cons]
+    have hb : (step P s .drain).buf = s.buf := by
+      simp only [step, drainOne]; split <;> rfl
+    have hl : (step P s .drain).toSend.length ≤ n := by
+      simp only [step, drainOne]
+      split
+      · next he => simp [he]
+      · next sd rest he => rw [he] at h; simp at h ⊢; omega
+    have := ih _ hl
+    exact ⟨this.1, this.2.trans hb⟩
+
+/-- ops that run the collector to quiescence from state `s`: decide every buffered trace, then let
+`sendTraces` consume the queue -/
+def quiesceOps (s : St) : List Op :=
+  (s.buf.map (·.trace)).map Op.decide ++ List.replicate (s.toSend.length + s.buf.length) Op.drain
+
+/-- **eventually_decided** (liveness, bounded form) — from *any* state, deciding each buffered trace
+once (what ticks do once deadlines pass: C03 `edf_no_starvation`) and `|tracesToSend| + |buffer|`
+iterations of `sendTraces` empty both the buffer and `tracesToSend`: no decision can be refused,
+no trace stays queued.  Together with `conservation` every accepted span has then been forwarded or
+dropped, and by `kept_all` those of kept traces forwarded. -/
+theorem eventually_decided (P : Params) (s : St) :
+    ((quiesceOps s).foldl (step P) s).buf = [] ∧ ((quiesceOps s).foldl (step P) s).toSend = [] := by
+  unfold quiesceOps
+  rw [List.foldl_append]
+  have hb := decideAll_buf P (s.buf.map (·.trace)) s
+  have hl := decideAll_toSend_len P (s.buf.map (·.trace)) s
+  unfold decideAll at hb hl
+  have hempty : (List.foldl (step P) s ((s.buf.map (·.trace)).map Op.decide)).buf = [] := by
+    rw [hb, List.filter_eq_nil_iff]
+    intro sp hsp
+    simp only [Bool.not_eq_true', Bool.not_eq_false, List.contains_eq_mem, List.mem_map, decide_eq_true_eq]
+    exact ⟨sp, hsp, rfl⟩
+  have := drains P (s.toSend.length + s.buf.length) _ (by rw [List.length_map] at hl; exact hl)
+  exact ⟨by rw [this.2]; exact hempty, this.1⟩
+
+
 /-- every accepted span is accounted for: buffered, queued for `sendTraces`, forwarded or dropped
 — exactly one of them (conservation; nothing vanishes, in any history). -/
 theorem conservation (P : Params) (dry : Bool) (ops : List Op) (sp : SpanRec)
